@@ -901,6 +901,93 @@ def _run(ctx, rng, impl):
             ctx.failures.append(Failure("C18/no-error-message", "rejected without an error message", dict(argv=["-" + letter, spec]), "", "message"))
     for sig, ex in observations.items():
         ctx.notes.append(f"observation (undocumented combination, not counted as violation): {sig}: {ex}")
+    independence_cases(ctx, ctx.scale(150, 2500))
+
+
+def independence_cases(ctx, n):
+    """every specification is interpreted by itself: what `-a S1 -g S2 -b S3` (and `-A/-G/-B`) build is what S1, S2, S3 build when each is the only
+    specification on the command line - parameters after ';' (of a `file:` specification too) and names belong to their own specification"""
+    import logging
+    import tempfile
+    import os
+    import shutil
+    import cutadapt.cli as cli
+    import pipe
+    pipe.patch_prefilter()
+    rng = ctx.rng
+    parser = cli.get_argument_parser()
+    d = tempfile.mkdtemp(prefix="cv-c18-", dir="/var/tmp")
+    def build(argv):
+        args = parser.parse_args(argv + ["in.fastq"])
+        logging.disable(logging.CRITICAL)
+        try:
+            a1, a2 = cli.adapters_from_args(args)
+        except cli.CommandLineError as e:
+            return "cmdline-error"
+        finally:
+            logging.disable(logging.NOTSET)
+        def desc(a):
+            j = pipe.adapter_json(a)
+            if j.get("name", "").isdigit():
+                j["name"] = "<auto>"
+            return j
+        return [desc(a) for a in a1], [desc(a) for a in a2]
+    try:
+        for k in range(n):
+            glob = []
+            if rng.random() < 0.5:
+                glob += ["-e", rng.choice(["0.1", "0.2", "0", "1"])]
+            if rng.random() < 0.5:
+                glob += ["-O", str(rng.choice([1, 3, 5, 8]))]
+            if rng.random() < 0.3:
+                glob.append("--no-indels")
+            if rng.random() < 0.2:
+                glob.append("--match-read-wildcards")
+            specs = []
+            for i in range(rng.randint(2, 4)):
+                flag = rng.choice(["-a", "-g", "-b", "-a", "-g", "-A", "-G"])
+                seq = pipe.rs(rng, rng.randint(6, 14))
+                par = rng.choice(["", "", ";e=0.3", ";o=4", ";min_overlap=9", ";noindels", ";e=0;o=2", ";max_errors=2", ";anywhere"])
+                if par == ";anywhere" and flag in ("-b",):
+                    par = ""
+                kind = rng.random()
+                if kind < 0.3:
+                    fn = os.path.join(d, f"ad{k}_{i}.fa")
+                    with open(fn, "w") as f:
+                        for r in range(rng.randint(1, 3)):
+                            f.write(f">rec{r}\n{pipe.rs(rng, rng.randint(6, 12))}\n")
+                    fpar = rng.choice(["", ";min_overlap=7", ";e=0.25", ";noindels", ";o=2;e=0"])
+                    spec = rng.choice(["file:", "^file:", "file$:"]) + fn + fpar
+                    if spec.startswith("^") and flag in ("-a", "-A"):
+                        flag = "-g" if flag == "-a" else "-G"
+                    if spec.startswith("file$") and flag in ("-g", "-G", "-b"):
+                        flag = "-a"
+                elif kind < 0.45 and flag != "-b":
+                    spec = f"n{i}=" + seq + par.replace(";anywhere", "") + "..." + pipe.rs(rng, 7) + rng.choice(["", ";o=3", ";e=0.2"])
+                else:
+                    spec = rng.choice(["", f"n{i}="]) + seq + par
+                specs.append((flag, spec))
+            whole = build(glob + [t for fs in specs for t in fs])
+            parts = [build(glob + list(fs)) for fs in specs]
+            ctx.evaluations += 1
+            ctx.count("independence-cases")
+            if whole == "cmdline-error" or any(p == "cmdline-error" for p in parts):
+                if (whole == "cmdline-error") != any(p == "cmdline-error" for p in parts):
+                    ctx.failures.append(Failure("C18/specifications-not-independent", "a list of specifications is rejected although each one alone is accepted (or the reverse)",
+                                                dict(argv=glob + [t for fs in specs for t in fs]), whole if whole == "cmdline-error" else "accepted",
+                                                [p if p == "cmdline-error" else "accepted" for p in parts]))
+                continue
+            exp = ([a for p in parts for a in p[0]], [a for p in parts for a in p[1]])
+            if whole != exp:
+                bad = [(w, e) for w, e in zip(whole[0] + whole[1], exp[0] + exp[1]) if w != e][:2]
+                ctx.failures.append(Failure("C18/specifications-not-independent", "an adapter built from a list of specifications differs from the adapter its own specification "
+                                            "builds alone (search parameters or names leak from one specification into another)",
+                                            dict(argv=glob + [t for fs in specs for t in fs]), [b[0] for b in bad] or [len(whole[0]), len(whole[1])],
+                                            [b[1] for b in bad] or [len(exp[0]), len(exp[1])]))
+            if len(specs) >= 3:
+                ctx.nontriv(("indep", tuple(t for fs in specs for t in fs)))
+    finally:
+        shutil.rmtree(d, ignore_errors=True)
 
 
 def gen_doc_spec_string(rng):
